@@ -295,9 +295,9 @@ func (h *harness) exec(sd *side, actor string, op simkit.Op) {
 		if exists {
 			return
 		}
-		timeout := time.Duration(op.Int(1)) * time.Millisecond
-		if timeout <= 0 {
-			timeout = time.Second
+		timeout := time.Duration(op.Int(1))*time.Millisecond + 311*time.Microsecond
+		if op.Int(1) <= 0 {
+			timeout = time.Second + 311*time.Microsecond
 		}
 		ctx, cancel := context.WithTimeout(context.Background(), timeout)
 		h.begin(actor, op.Kind, sd, nil, time.Now().Add(timeout), 0)
@@ -397,7 +397,7 @@ func (h *harness) exec(sd *side, actor string, op simkit.Op) {
 		}
 		var t time.Time
 		if ms := op.Int(1); ms != 0 {
-			t = time.Now().Add(time.Duration(ms) * time.Millisecond)
+			t = time.Now().Add(time.Duration(ms)*time.Millisecond + 173*time.Microsecond)
 		}
 		h.begin(actor, op.Kind, sd, sl, time.Time{}, 0)
 		var err error
@@ -419,7 +419,7 @@ func (h *harness) exec(sd *side, actor string, op simkit.Op) {
 		s.Logf(actor, "%s sid=%d %dms -> %s", op.Kind, sl.sid, op.Int(1), errClass(err))
 		s.Count("probe.deadline_set", 1)
 	case "sleep":
-		time.Sleep(time.Duration(op.Int(0)) * time.Millisecond)
+		time.Sleep(time.Duration(op.Int(0))*time.Millisecond + 97*time.Microsecond)
 	case "muxclose":
 		h.mu.Lock()
 		sd.closeInvoked = true
@@ -496,7 +496,9 @@ func (h *harness) drain(sd *side, actor string, sl *slot) {
 		// zero deadline in this implementation (observed; outside the listed
 		// properties).
 		sl.st.SetReadDeadline(time.Time{})
-		t := time.Now().Add(2 * time.Second)
+		// An odd duration: never ties with heartbeat tickers or actor sleeps
+		// (the runtime, not the seed, orders timers that expire together).
+		t := time.Now().Add(2*time.Second + 1371*time.Microsecond)
 		if err := sl.st.SetReadDeadline(t); err != nil {
 			return false
 		}
@@ -504,6 +506,27 @@ func (h *harness) drain(sd *side, actor string, sl *slot) {
 		sl.rdl = t
 		h.mu.Unlock()
 		return true
+	}
+	// Kick out a client Read still blocked on this stream (clients stop after
+	// their current operation), so that there is never more than one reader.
+	busy := func() bool {
+		h.mu.Lock()
+		defer h.mu.Unlock()
+		for _, op := range h.inflight {
+			if op.kind == "read" && op.sl == sl && op.actor != actor {
+				return true
+			}
+		}
+		return false
+	}
+	if busy() {
+		sl.st.SetReadDeadline(time.Now().Add(-time.Second))
+		for i := 0; busy() && i < 1000; i++ {
+			time.Sleep(733 * time.Microsecond)
+		}
+		if busy() {
+			return
+		}
 	}
 	if !arm() {
 		return
